@@ -152,4 +152,8 @@ class ColorMatrix:
                 rect.left = rect.right
             case False, True:
                 rect.right = rect.left
+        # Row and column numbers computed by a script can be floats, such as
+        # {4 / 2}. Like zone numbers, they get rounded.
+        rect.top, rect.bottom = round(rect.top), round(rect.bottom)
+        rect.left, rect.right = round(rect.left), round(rect.right)
         return rect
